@@ -54,6 +54,12 @@ def gen(rng, tier):
                 bc2 = streamgen.bytesc_case(fam, data[:cut], ["ehdr", "phdrs"])
                 _pairs[sc2] = (bc2, ["ehdr", "phdrs"], data[:cut], fam)
                 cases += [sc2, bc2]
+    for k in range(2 if tier == "quick" else 20):       # PN_XNUM with no parsed section header
+        for d2, meta in streamgen.xnum_variants(rng):
+            q3 = ["ehdr", "shdrs", "phdrs", "shstr"]
+            sc2, bc2 = streamgen.stream_case("any", d2, "plain", [], q3), streamgen.bytesc_case("any", d2, q3)
+            _pairs[sc2] = (bc2, q3, d2, "any")
+            cases += [sc2, bc2]
     return cases
 
 
